@@ -1,6 +1,6 @@
 # ---- helper "cpc2": C11 — the staking precompile acts only for its caller and submits exactly the native message ----------
 # exec'd by gen_keeper.py after gen_tail2.py (shares the macros of gen_tail.py)
-NATIVE = ['nativeCalls', 'nativeKind', 'nativeDelegator', 'nativeValidator', 'nativeValidatorSrc', 'nativeDenom', 'nativeAmount', 'nativeLayer']
+NATIVE = ['nativeCalls', 'nativeKind', 'nativeDelegator', 'nativeValidator', 'nativeValidatorSrc', 'nativeDenom', 'nativeAmount', 'nativeLayer', 'nativeSigChecks']
 def NATIVEMOD(): return ', '.join(NATIVE)
 def SDKMOD(ctx): return f'stakingVersion[layer({ctx})], distVersion[layer({ctx})], bankBal[layer({ctx})], authVersion[layer({ctx})], evlog[payload({ctx}.EventManager())]'
 N0 = 'old(nativeCalls[0])'
@@ -8,7 +8,8 @@ def ONE_MORE(): return f'nativeCalls[0] == {N0} + 1'
 def NONE_MORE(): return f'nativeCalls[0] == {N0}'
 def LOG_SAME_BEFORE():
     # entries before the call's first new entry are untouched
-    return '(forall n int :: (0 <= n && n < ' + N0 + ') ==> (' + ' && '.join(f'{g}[n] == old({g}[n])' for g in NATIVE[1:]) + '))'
+    # one quantifier per log component (each gets its own trigger)
+    return '(' + ' && '.join(f'(forall n int :: (0 <= n && n < {N0}) ==> {g}[n] == old({g}[n]))' for g in NATIVE[1:]) + ')'
 
 w('''// ---------------------------------------------------------------------------------------------
 // precompiles_staking.go — state-changing methods (C11). Ghost log of the native messages handed to the SDK message servers
@@ -43,7 +44,7 @@ def helper(recv_t, name, sig, kind, deleg_is, val_is, extra=''):
     w(f'//@   modifies {NATIVEMOD()}, {SDKMOD("ctx")}')
     w(f'//@   ensures[C11.{name}_at_most_one_message] ({NONE_MORE()} || {ONE_MORE()}) && {LOG_SAME_BEFORE()}')
     w(f'//@   ensures[C11.{name}_success_means_submitted] err == nil ==> {ONE_MORE()}')
-    w(f'//@   ensures[C11.{name}_message] {ONE_MORE()} ==> (nativeKind[{N0}] == {kind} && {deleg_is} && {val_is}{extra} && nativeLayer[{N0}] == layer(ctx))')
+    w(f'//@   ensures[C11.{name}_message] {ONE_MORE()} ==> (nativeKind[{N0}] == {kind} && {deleg_is} && {val_is}{extra} && nativeLayer[{N0}] == layer(ctx) && nativeSigChecks[{N0}] == sigChecks[0])')
     w()
 COIN = f' && nativeDenom[{N0}] == amount.Denom && nativeAmount[{N0}] == iv(amount.Amount)'
 helper('stakingCustomPrecompiledContractRwDelegate', 'delegate', 'ctx sdk.Context, delegator sdk.AccAddress, validator sdk.ValAddress, amount sdk.Coin', 1,
@@ -80,3 +81,59 @@ execute('stakingCustomPrecompiledContractRwDelegate', 'e.contract', 'delegate_ca
 execute('stakingCustomPrecompiledContractRwUnDelegate', 'e.contract', 'undelegate_call', 2, f'nativeValidator[{N0}] == codecStr(2, addrBytes({ARGA(0)}))', 1)
 execute('stakingCustomPrecompiledContractRwReDelegate', 'e.contract', 'redelegate_call', 3, f'nativeValidatorSrc[{N0}] == codecStr(2, addrBytes({ARGA(0)})) && nativeValidator[{N0}] == codecStr(2, addrBytes({ARGA(1)}))', 2)
 execute('stakingCustomPrecompiledContractRwWithdrawReward', 'e.contract', 'withdraw_reward_call', 4, f'nativeValidator[{N0}] == codecStr(2, addrBytes({ARGA(0)}))', None)
+
+# ---- signed-message variants and withdrawRewards ------------------------------------------------------------------------
+SIG = ['sigChecks', 'sigCheckExpected', 'sigCheckMsg', 'sigCheckChain', 'sigCheckOk']
+NATIVE2 = NATIVE
+def NEW_ENTRIES(body):
+    return f'(forall n int :: ({N0} <= n && n < nativeCalls[0]) ==> ({body}))'
+LOG_SAME2 = LOG_SAME_BEFORE()
+S0 = 'old(sigChecks[0])'
+# at the time native message n was submitted, the LATEST signature check had succeeded, for the caller's address, and it was
+# made during this call
+SIG_BEFORE = f'(nativeSigChecks[n] > {S0} && sigCheckOk[nativeSigChecks[n] - 1] && sigCheckExpected[nativeSigChecks[n] - 1] == caller.Address())'
+
+w('''// withdrawRewards(delegator): queries the pending rewards, then submits one MsgWithdrawDelegatorReward per selected
+// validator. Every message it submits is a reward withdrawal of THAT delegator on the call's layer.
+// (Which validators are selected — those whose truncated bond-denom reward reaches the minimum — is not decided here.)''')
+WR = 'stakingCustomPrecompiledContractRwWithdrawRewards'
+w(f'//@ func (e {WR}) withdrawRewards(ctx sdk.Context, delegator sdk.AccAddress) (any bool, err error)')
+w('//@   requires e.withdrawReward.contract != nil')
+w(f'//@   modifies {", ".join(NATIVE2)}, {SDKMOD("ctx")}, e.withdrawReward.contract.cacheStakingMetadata')
+w(f'//@   ensures[C11.withdraw_rewards_only_grows] nativeCalls[0] >= {N0} && {LOG_SAME2}')
+w(f'//@   ensures[C11.withdraw_rewards_for_delegator_only] {NEW_ENTRIES(f"nativeKind[n] == 4 && bech32Bytes(nativeDelegator[n]) == bytes(delegator) && nativeLayer[n] == layer(ctx) && nativeSigChecks[n] == sigChecks[0]")}')
+w('//@ loop 2')
+w(f'//@   modifies {", ".join(NATIVE2)}, {SDKMOD("ctx")}')
+w(f'//@   invariant nativeCalls[0] >= {N0} && sigChecks[0] == old(sigChecks[0]) && bech32Bytes(delegatorAddrStr) == bytes(delegator) && {LOG_SAME2}')
+w(f'//@   invariant {NEW_ENTRIES(f"nativeKind[n] == 4 && nativeDelegator[n] == delegatorAddrStr && nativeLayer[n] == layer(ctx) && nativeSigChecks[n] == sigChecks[0]")}')
+w()
+w(f'//@ func (e {WR}) Execute(caller corevm.ContractRef, contractAddr common.Address, input []byte, env cpcExecutorEnv) (ret []byte, err error)')
+w('//@   requires caller != nil && e.withdrawReward.contract != nil && env.evm != nil && env.evm.StateDB != nil')
+w(f'//@   modifies {", ".join(NATIVE2)}, {SDKMOD("env.ctx")}, {LOGMOD("env.evm.StateDB")}, e.withdrawReward.contract.cacheStakingMetadata')
+w(f'//@   ensures[C11.withdraw_rewards_call_only_grows] nativeCalls[0] >= {N0} && {LOG_SAME2}')
+w(f'//@   ensures[C11.withdraw_rewards_call_for_caller_only] {NEW_ENTRIES(f"nativeKind[n] == 4 && bech32Bytes(nativeDelegator[n]) == {CALLER} && nativeLayer[n] == layer(env.ctx)")}')
+w()
+
+w('''// delegateByActionMessage(message, r, s, v): the signed staking message. No native message is submitted unless the message's
+// delegator IS the caller and an EIP-712 signature check for the caller's address (VerifySignature(caller, message, r, s, v,
+// chain id of the EVM)) has succeeded BEFORE it; at most one native message; it carries the caller as delegator and a
+// positive amount.''')
+BA = 'stakingCustomPrecompiledContractRwDelegateByActionMessage'
+w(f'//@ func (e {BA}) Execute(caller corevm.ContractRef, contractAddr common.Address, input []byte, env cpcExecutorEnv) (ret []byte, err error)')
+w('//@   requires caller != nil && e.delegate.contract != nil && e.undelegate.contract != nil && e.redelegate.contract != nil && env.evm != nil && env.evm.StateDB != nil')
+w(f'//@   modifies {", ".join(NATIVE2)}, {", ".join(SIG)}, {SDKMOD("env.ctx")}, {LOGMOD("env.evm.StateDB")}')
+w(f'//@   ensures[C11.signed_staking_at_most_one_message] ({NONE_MORE()} || {ONE_MORE()}) && {LOG_SAME2}')
+w(f'//@   ensures[C11.signed_staking_for_caller_only] {NEW_ENTRIES(f"bech32Bytes(nativeDelegator[n]) == {CALLER} && nativeLayer[n] == layer(env.ctx) && 1 <= nativeKind[n] && nativeKind[n] <= 3 && nativeAmount[n] > 0")}')
+w(f'//@   ensures[C11.signed_staking_verified_before_native] {NEW_ENTRIES(SIG_BEFORE)}')
+w(f'//@   ensures[C11.signed_staking_chain_bound] {NEW_ENTRIES("sigCheckChain[nativeSigChecks[n] - 1] == env.evm.ChainConfig().ChainID")}')
+w()
+w('''// withdrawRewardsByMessage(message, r, s, v): the signed withdrawal message; same rule.''')
+WM = 'stakingCustomPrecompiledContractRwWithdrawRewardsByMessage'
+w(f'//@ func (e {WM}) Execute(caller corevm.ContractRef, contractAddr common.Address, input []byte, env cpcExecutorEnv) (ret []byte, err error)')
+w('//@   requires caller != nil && e.withdrawReward.contract != nil && e.withdrawRewards.withdrawReward.contract != nil && env.evm != nil && env.evm.StateDB != nil')
+w(f'//@   modifies {", ".join(NATIVE2)}, {", ".join(SIG)}, {SDKMOD("env.ctx")}, {LOGMOD("env.evm.StateDB")}, e.withdrawRewards.withdrawReward.contract.cacheStakingMetadata')
+w(f'//@   ensures[C11.signed_withdraw_only_grows] nativeCalls[0] >= {N0} && {LOG_SAME2}')
+w(f'//@   ensures[C11.signed_withdraw_for_caller_only] {NEW_ENTRIES(f"nativeKind[n] == 4 && bech32Bytes(nativeDelegator[n]) == {CALLER} && nativeLayer[n] == layer(env.ctx)")}')
+w(f'//@   ensures[C11.signed_withdraw_verified_before_native] {NEW_ENTRIES(SIG_BEFORE)}')
+w(f'//@   ensures[C11.signed_withdraw_chain_bound] {NEW_ENTRIES("sigCheckChain[nativeSigChecks[n] - 1] == env.evm.ChainConfig().ChainID")}')
+w()
